@@ -52,7 +52,7 @@ theorem map_of_map_some {α β γ : Type} (f : α → Option β) (proj : β → 
 /-- every raw sample of a batch is covered by one of the batch's emission timestamps, inside the
     sample's own window -/
 theorem level1_cover (r : Int) (hr : 0 < r) (b : List Pt) (t0 v0 lt lv : Int) (hh : b.head? = some (t0, v0))
-    (hl : b.getLast? = some (lt, lv)) (h0 : ∀ p ∈ b, 0 ≤ p.1) (hs : Sorted b) :
+    (hl : b.getLast? = some (lt, lv)) (hs : Sorted b) :
     ∀ u ∈ b, ∃ e ∈ segTs b (batchTs r b lt), u.1 ≤ e ∧ e ≤ currentWindow u.1 r := by
   intro u hu
   have hle : u.1 ≤ lt := by
@@ -72,7 +72,7 @@ theorem level1_cover (r : Int) (hr : 0 < r) (b : List Pt) (t0 v0 lt lv : Int) (h
   have : u ∈ (runs r b).flatMap (·.2) := by rw [runs_flatten]; exact hu
   obtain ⟨g, hg, hug⟩ := List.mem_flatMap.mp this
   have hw := runs_window r b g hg u hug
-  have hcw := currentWindow_ge (h0 u hu) hr
+  have hcw := currentWindow_ge (t := u.1) hr
   have hmem : min g.1 lt ∈ batchTs r b lt := List.mem_map.mpr ⟨g, hg, rfl⟩
   have hge : u.1 ≤ min g.1 lt := by simp only [Int.min_def]; split <;> omega
   refine ⟨min g.1 lt, ?_, hge, by rw [hw]; simp only [Int.min_def]; split <;> omega⟩
@@ -87,9 +87,9 @@ theorem C37_level1_segs (r : Int) (hr : 0 < r) (data : List Raw) (nc : Nat) (hnc
     ∃ chunks, downsampleRaw data r nc = some chunks ∧
       chunks.map (·.counter) = (segsOf r nc data).map (fun sg => ctrChunk sg.1 sg.2) ∧
       SegsOK r (segsOf r nc data) ∧ (segsOf r nc data).flatMap (·.1) = dropNaN data := by
-  obtain ⟨chunks, hc, hflat, hne, _, hmap⟩ := downsampleRaw_batches r hr data nc hnc ok.sorted ok.nonneg
-  have hbf := batch_facts (r := r) (nc := nc) ok hflat hne
-  have hshape := chunk_shape hr (nc := nc) ok hflat hne
+  obtain ⟨chunks, hc, hflat, hne, _, hmap⟩ := downsampleRaw_batches r hr data nc hnc ok.sorted
+  have hbf := batch_facts (r := r) (nc := nc) ok.toIn hflat hne
+  have hshape := chunk_shape hr (nc := nc) ok.toIn hflat hne
   -- counter sub-chunks = ctrChunk of the segments
   have hctr : chunks.map (·.counter) = (segsOf r nc data).map (fun sg => ctrChunk sg.1 sg.2) := by
     simp only [segsOf, List.map_map, Function.comp_def]
@@ -133,7 +133,7 @@ theorem C37_level1_segs (r : Int) (hr : 0 < r) (data : List Raw) (nc : Nat) (hnc
     obtain ⟨hs, h0, _, _, t0, v0, lt, lv, hh, hl, hlt⟩ := hbf b hb
     simp only
     rw [hlt]
-    exact level1_cover r hr b t0 v0 lt lv hh hl h0 hs
+    exact level1_cover r hr b t0 v0 lt lv hh hl hs
 
 /-- **C37, level 1.**  Reading the counter aggregate of the chunks DownsampleRaw produces (the
     querier's `NewApplyCounterResetsIterator` over the counter sub-chunks) returns, per batch, the
